@@ -47,6 +47,8 @@ fn init_scheduler() {
     thread::spawn(move || {
         // timer function
         let timer_event_handler = |c: Arc<AtomicOption<CoroutineImpl>>| {
+            #[cfg(may_verif)]
+            crate::verif::pt("timer.take", crate::verif::addr(&*c), 0, 0);
             // just re-push the co to the visit list
             if let Some(mut co) = c.take() {
                 #[cfg(may_verif)]
